@@ -182,13 +182,14 @@ Fixpoint wexec (s : state) (ops : list wop) : outcome state :=
 (* ---------------------------------------------------------------- the public callers
    def net_io_counters(pernic=False, nowrap=True):
        rawdict = _psplatform.net_io_counters()
-       if not rawdict: return {} if pernic else None
        if nowrap: rawdict = _wrap_numbers(rawdict, 'psutil.net_io_counters')
+       if not rawdict: return {} if pernic else None
        if pernic: ... return rawdict      (values re-wrapped as namedtuples)
        else: return snetio( *[sum(x) for x in zip( *rawdict.values())])
    disk_io_counters is the same with 'psutil.disk_io_counters' / perdisk.
-   [fixed = true] is the proposed repair (notes/fixes/C10-empty-snapshot.diff):
-   the empty test is made after the wrap step. *)
+   [legacy = true] is the code before commit e278b23, where the empty test came
+   first, so that an empty listing never reached the wrap step (kept for the
+   refuted theorem and the revert self-test). *)
 Inductive fn := Net | Disk.
 Definition fname (f : fn) : bytes :=
   match f with Net => bs "psutil.net_io_counters" | Disk => bs "psutil.disk_io_counters" end.
@@ -213,23 +214,28 @@ Definition present (f : fn) (per : bool) (d : dict) : pobs :=
   if is_empty d then (if per then PDict [] else PNone)
   else if per then PDict d else PTotal (totals (width f) d).
 
-Definition pstep (fixed : bool) (s : state) (o : pop) : outcome (state * pobs) :=
+Definition pstep (legacy : bool) (s : state) (o : pop) : outcome (state * pobs) :=
   match o with
   | PClear f => Val (dremove (fname f) s, PDone)
   | PCall f per nowrap raw =>
     if negb (raw_ok f raw) then OutOfModel        (* the platform layer always returns 8 / 9 fields *)
-    else if negb fixed && is_empty raw then Val (s, present f per raw)
+    else if legacy && is_empty raw then Val (s, present f per raw)
     else if nowrap then do r <- run s (fname f) raw; Val (fst r, present f per (snd r))
     else Val (s, present f per raw)
   end.
 
-Fixpoint ptrace (fixed : bool) (s : state) (ops : list pop) : list (outcome pobs) :=
+Fixpoint ptrace (legacy : bool) (s : state) (ops : list pop) : list (outcome pobs) :=
   match ops with
   | [] => []
   | o :: rest =>
-    match pstep fixed s o with
-    | Val (s', a) => Val a :: ptrace fixed s' rest
+    match pstep legacy s o with
+    | Val (s', a) => Val a :: ptrace legacy s' rest
     | Exc e => [Exc e]
     | OutOfModel => [OutOfModel]
     end
+  end.
+Fixpoint pexec (legacy : bool) (s : state) (ops : list pop) : outcome state :=
+  match ops with
+  | [] => Val s
+  | o :: rest => do r <- pstep legacy s o; pexec legacy (fst r) rest
   end.
